@@ -60,6 +60,7 @@ type Plan struct {
 	// in a goroutine of the code under test (which no test can recover) is blamed on that case
 	TraceCases  bool
 	Tools       []string
+	RaceTools   []string // also built with -race into $VERIF_TOOLS/race/
 	Assumptions []string
 }
 
@@ -178,7 +179,7 @@ func main() {
 		return true
 	}
 	var wgB sync.WaitGroup
-	okB, okR, okT := true, true, true
+	okB, okR, okT, okT2 := true, true, true, true
 	wgB.Add(1)
 	go func() { defer wgB.Done(); okB = build(bin, false) }()
 	if needRace {
@@ -206,8 +207,28 @@ func main() {
 			}
 		}()
 	}
+	if len(plan.RaceTools) > 0 {
+		wgB.Add(1)
+		go func() {
+			defer wgB.Done()
+			os.MkdirAll(filepath.Join(toolDir, "race"), 0o755)
+			args := []string{"build", "-race", "-tags", "verif", "-o", filepath.Join(toolDir, "race") + "/"}
+			for _, t := range plan.RaceTools {
+				args = append(args, "./cmd/"+t)
+			}
+			cmd := exec.Command("go", args...)
+			cmd.Dir = repoDir
+			cmd.Env = append(os.Environ(), "GOFLAGS=-mod=mod", "GOPROXY=off", "GOSUMDB=off", "GOTOOLCHAIN=local")
+			var buf bytes.Buffer
+			cmd.Stdout, cmd.Stderr = &buf, &buf
+			if err := cmd.Run(); err != nil {
+				fmt.Printf("BUILD-FAILED race tools: %v\n%s\n", err, buf.String())
+				okT2 = false
+			}
+		}()
+	}
 	wgB.Wait()
-	if !okB || !okR || !okT {
+	if !okB || !okR || !okT || !okT2 {
 		// A tree that does not compile cannot be judged.
 		return
 	}
